@@ -165,7 +165,7 @@ def c14_cases(rng, count):
     return out
 
 GLOB_PATS = ["m", "a", "^$", "o", "x", "1", "."]
-GLOB_CMDS = ["d", "s/m/M/", "s/o/0/g", "pu a", "a\\", "-1d", "+1d", "-2,-1d|+1", "d|d", ".,+1d", "+1,+2d", "k a", "p", "s/$/!/", "-1,.d", "1d", "$d", "pu a|-1d", "g/o/d", "g/1/s/m/W/", "v/m/d", "y a|pu a", "+1s/./Q/", "+1d|-1"]
+GLOB_CMDS = ["d", "s/m/M/", "s/o/0/g", "pu a", "a\\", "-1d", "+1d", "-2,-1d|+1", "d|d", ".,+1d", "+1,+2d", "k a", "p", "s/$/!/", "-1,.d", "1d", "$d", "pu a|-1d", "g/o/d", "g/1/s/m/W/", "v/m/d", "y a|pu a", "+1s/./Q/", "+1d|-1", "m0", "m$", "co0", "co.", "t$", "m+1", "-1m$", "m0|+1", "+1m0", "+1m0|+2", "co0|d", "i\\", "c\\", "s/^/>/|-1d", "g/./s/$/;/", "1,2d", "$m0"]
 
 def c15_cases(rng, count):
     out = []
